@@ -27,6 +27,14 @@ def main():
     if len(sys.argv) < 2:
         print("usage: check <ID> [quick|thorough]")
         return 3
+    # memory guard: a broken library function that makes a value grow without bound (an operand extended by itself doubles per step)
+    # must end in a MemoryError inside that call - reported by the suite that made the call - not in the kernel killing the check
+    try:
+        import resource
+        gb = int(os.environ.get("VERIF_MEM_GB", "8") or 8)
+        resource.setrlimit(resource.RLIMIT_AS, (gb << 30, gb << 30))
+    except Exception:       # noqa: BLE001  (no such limit on this platform: the watchdog still applies)
+        pass
     pid = sys.argv[1]
     tier = sys.argv[2] if len(sys.argv) > 2 else os.environ.get("VERIF_TIER", "quick")
     seed = int(os.environ.get("VERIF_SEED", "0") or 0)
@@ -45,6 +53,11 @@ def main():
 
     def expired():
         print(f"  the check did not finish within {limit} s (normal: seconds to minutes)")
+        try:        # where it is stuck (diagnostic only, on stderr)
+            import faulthandler
+            faulthandler.dump_traceback(file=sys.stderr, all_threads=True)
+        except Exception:       # noqa: BLE001
+            pass
         if check.violation_lines or check.pending_refuted:
             rc = check.finish()
         else:
